@@ -100,15 +100,30 @@ def r3(ctx, rep):
     stmts = f["body"]["s"]
 
     def is_push(n):
-        return n.get("k") == "mcall" and n["m"] == "push" and show(n["r"]) == "columns"
+        return n.get("k") == "mcall" and n["m"] == "push" and n["a"] and show(n["a"][0], maxdepth=4).startswith("TyTupleField::Single(")
     push_idx = [j for j, s in enumerate(stmts) if any(is_push(n) for n in walk_no_closure(s))]
-    guard_idx = [j for j, s in enumerate(stmts) if s.get("k") == "if" and show(s["c"]) == "!has_wildcard"
+    Ai = __import__("alpha").Inliner(f)
+
+    def wildcard_test(c):
+        """`!<relation type has a wildcard field>` with the local inlined"""
+        while c.get("k") == "paren":
+            c = c["e"]
+        if not (c.get("k") == "un" and c["op"] == "!"):
+            return False
+        e = c["e"]
+        for _ in range(3):
+            if e.get("k") == "path" and "::" not in e["p"]:
+                i = Ai._init_of(e, e["p"])
+                if i is None:
+                    break
+                e = i
+        return any(n.get("k") == "p_ts" and n["p"] == "TyTupleField::Wildcard" for n in walk(e)) and ".any(" in show(e, maxdepth=10)
+    guard_idx = [j for j, s in enumerate(stmts) if s.get("k") == "if" and wildcard_test(s["c"])
                  and any(r.get("k") == "return" and show(r.get("e")).startswith("Err(") for r in walk(s["t"]))]
     rep.check(bool(push_idx) and bool(guard_idx) and guard_idx[0] < push_idx[0], "wildcard-guard",
               "the new column may be pushed only after `if !has_wildcard { return Err(..) }`: a frame that is fully known (after select / aggregate / group) must reject unknown names",
               file=f["file"], line=f["l"], fn=f["path"])
-    hw = [s for s in stmts if s.get("k") == "local" and show(s["pat"]) == "has_wildcard"]
-    ok = bool(hw) and any(n.get("k") == "p_ts" and n["p"] == "TyTupleField::Wildcard" for n in walk(hw[0]["init"])) and ".any(" in show(hw[0]["init"], maxdepth=10)
+    ok = bool(guard_idx)
     rep.check(ok, "has_wildcard", "has_wildcard must test the relation type for a wildcard field", file=f["file"], line=f["l"], fn=f["path"])
     # ambiguous inference source is an error
     m = None
